@@ -608,7 +608,20 @@ def eval_desc(desc, env):
         a, b = eval_desc(sc[1][0], env), eval_desc(sc[1][1], env)
         return {"Eq": a == b, "Ne": a != b, "Lt": a < b, "Le": a <= b, "Gt": a > b, "Ge": a >= b,
                 "BitAnd": bool(a) and bool(b), "BitOr": bool(a) or bool(b), "BitXor": bool(a) != bool(b)}[sc[0]]
+    if sc and len(sc[1]) == 1 and sc[0].split("::")[-1] in CHAR_MODELS and ("char" in sc[0] or "::" not in sc[0]):
+        return CHAR_MODELS[sc[0].split("::")[-1]](int(eval_desc(sc[1][0], env)))
     raise Unknown(desc)
+
+
+_UNICODE_WS = set(range(9, 14)) | {0x20, 0x85, 0xA0, 0x1680, 0x2028, 0x2029, 0x202F, 0x205F, 0x3000} | set(range(0x2000, 0x200B))
+# concrete models of std's character classifiers (std's documented definitions), for probing per-character predicates
+CHAR_MODELS = {
+    "is_ascii_whitespace": lambda c: c in (0x20, 0x09, 0x0A, 0x0C, 0x0D),
+    "is_whitespace": lambda c: c in _UNICODE_WS,
+    "is_control": lambda c: c <= 0x1F or 0x7F <= c <= 0x9F,
+    "is_ascii_control": lambda c: c <= 0x1F or c == 0x7F,
+    "is_ascii": lambda c: c < 0x80,
+}
 
 
 def run_concrete(table, env):
